@@ -501,3 +501,120 @@ Proof.
     cbn in Hf1. congruence.
   - rewrite Hf2. destruct M2 as [M2|[M2 M2']]; lia.
 Qed.
+
+(* ================================================================== *)
+(* 8.8 the star: a proposal is replicated and committed everywhere     *)
+(* ================================================================== *)
+Section StarPropose.
+
+Variables (LL : LL) (T l : N) (rw rwl : bool) (l0 : raft_log) (lof : N -> N).
+Hypothesis HLL : LeaderLog LL.
+Hypothesis HT : T <> 0.
+Hypothesis Hl0 : RepInv rwl l0.
+Hypothesis Habs0 : abs l0 = LL.
+
+Local Notation StarInv := (StarInv LL T l rw l0 lof).
+
+(* MAIN 8 (star_propose), invariant form.  From a star that satisfies the star invariant
+   and has converged (every follower's matched = last, every follower's log ends at last),
+   the leader takes one proposal and persists it; then the star rounds run. *)
+Theorem star_propose Hb L Fs d ps L2 N1 K L' Fs' :
+  StarInv Hb L Fs -> Fs <> [] -> 1 <= Hb ->
+  (* converged, and the followers hold nothing above the leader's last index *)
+  (forall F, In F Fs -> exists pr, get_pr L (r_id F) = Some pr /\ matched pr = ll_last LL) ->
+  (forall F, In F Fs -> last_index (r_log F) = ll_last LL) ->
+  (* the leader *)
+  RepInv rwl (r_log L) -> u_snapshot (unst (r_log L)) = None -> ll_last LL + 1 < u64_max ->
+  get_pr L l = Some ps -> matched ps = ll_last LL -> r_max_uncommitted_size L = u64_max ->
+  (* the voters: the leader and some of the followers, at least one follower *)
+  incoming (conf_of L) <> [] ->
+  (forall v, In v (incoming (conf_of L)) \/ In v (outgoing (conf_of L)) ->
+             v = l \/ In v (map r_id Fs)) ->
+  (exists F, In F Fs /\ (In (r_id F) (incoming (conf_of L)) \/ In (r_id F) (outgoing (conf_of L)))) ->
+  (* the run *)
+  propose_persist L d = Ok L2 ->
+  (forall F, In F Fs -> (star_bound Hb (ll_last LL + 1) (lof (r_id F)) <= N1)%nat) ->
+  (N.to_nat (Hb + 1) <= K)%nat ->
+  star_rounds (N1 + K) L2 Fs = Ok (L', Fs') ->
+  let LL1 := ll_append LL [new_ent L d] in
+  committed (r_log L') = ll_last LL + 1 /\
+  Forall2 (fun F F' => fol_done LL1 lof L' F F' /\ committed (r_log F') = ll_last LL + 1) Fs Fs'.
+Proof.
+  intros HS Hne HH Hconv Hlastf HIL Hsn Hbd Hgl Hml Hmx Hinc Hvot Hvf Hpp HN HK Hrun LL1.
+  destruct HS as [Hnd Hall]. rewrite Forall_forall in Hall.
+  (* the leader's static facts, from any follower's pair invariant *)
+  assert (HC : LCore T l l0 L).
+  { destruct Fs as [|F0 t]; [congruence|]. destruct (Hall F0 ltac:(left; reflexivity)) as (_ & _ & _ & a & HI).
+    apply (pv_core _ _ _ _ _ _ _ _ _ _ _ HI). }
+  pose proof HC as [C1 C2 C3 C4 C5 C6 C7 C8].
+  assert (HabsL : abs (r_log L) = LL).
+  { rewrite <- Habs0. destruct C4 as (A & B & _). apply abs_ext; assumption. }
+  pose proof (abs_last rwl _ HIL) as HlastL. rewrite HabsL in HlastL.
+  pose proof (ri_commit rwl _ HIL) as HcL. rewrite HabsL in HcL.
+  rewrite <- C3 in Hgl.
+  destruct (propose_persist_parts rwl L d ps L2 C1 Hgl C6 Hmx HIL Hsn ltac:(lia) ltac:(lia)
+              ltac:(rewrite C2; exact HT) Hpp)
+    as (lg1 & L1 & lg2 & HI1 & Habs1 & Hcm1 & Hbc & Hlog1 & HI2 & Habs2 & Hcm2 & Hmp & HI3 & Hop).
+  rewrite HabsL, HlastL, C2 in *. fold LL1 in Habs1, Habs2.
+  set (e := new_ent L d) in *.
+  assert (He : e_index e = ll_last LL + 1) by (unfold e; cbn; rewrite HlastL; reflexivity).
+  assert (HeT : e_term e = T) by (unfold e; cbn; exact C2).
+  set (lg3 := set_persisted lg2 (ll_last LL + 1)) in *.
+  assert (Habs3 : abs lg3 = LL1) by (unfold lg3; rewrite <- Habs2; apply abs_ext; reflexivity).
+  assert (HLL1 : LeaderLog LL1) by (apply (LeaderLog_ext LL T (ll_base LL) e HLL ltac:(lia) He HeT HT Hbd)).
+  assert (Hlast1 : ll_last LL1 = ll_last LL + 1) by (apply ll_append1_last; exact He).
+  assert (HlastT : ll_term LL1 (ll_last LL1) = SOk T).
+  { rewrite Hlast1. unfold LL1. rewrite (ll_append1_term_new LL e He). congruence. }
+  (* every follower's pair invariant in the new world *)
+  assert (Hfol : forall F, In F Fs ->
+            FolInv LL1 T l rw lg3 lof Hb L2 F /\
+            (exists pr2, get_pr L2 (r_id F) = Some pr2 /\ matched pr2 = ll_last LL) /\
+            conf_of L2 = conf_of L).
+  { intros F HF. destruct (Hall F HF) as (Hlg & Hlo & HloT & a & HI).
+    destruct (Hconv F HF) as (pr & Hg & Hm).
+    destruct (propose_PairInv LL T l (r_id F) (lof (r_id F)) rw rwl l0 HLL Hlo HloT HT Hlg Hb a L F pr e
+                lg1 L1 lg2 L2 HI Hg Hm (Hlastf F HF) He HeT Hbd HI1 Habs1 Hbc Hlog1 HI2 Habs2 Hmp HI3 Hop)
+      as (HI' & Hpr2 & Hcf).
+    split; [|split; [exact Hpr2|exact Hcf]].
+    unfold FolInv. split; [exact Hlg|]. split; [exact Hlo|]. split.
+    - destruct HloT as [t Ht]. exists t. unfold LL1. rewrite (ll_append1_term_low LL e _ He); [exact Ht|].
+      destruct (pv_pr _ _ _ _ _ _ _ _ _ _ _ HI) as (pr0 & Hg0 & HP0). rewrite Hg in Hg0.
+      inversion Hg0; subst pr0. pose proof (pi_lo _ _ _ _ HP0). lia.
+    - exists (ll_last LL). exact HI'. }
+  assert (HS2 : RaftProofsC10Star.StarInv LL1 T l rw lg3 lof Hb L2 Fs).
+  { split; [exact Hnd|]. apply Forall_forall. intros F HF. apply (Hfol F HF). }
+  assert (Hconf2 : conf_of L2 = conf_of L).
+  { destruct Fs as [|F0 t]; [congruence|]. apply (Hfol F0 ltac:(left; reflexivity)). }
+  (* the leader's own progress and commit index *)
+  pose proof (bcast_append_fr _ _ Hbc) as (F1 & _ & _ & _ & F5 & _).
+  pose proof (bcast_append_matched _ _ Hbc l) as Hown1.
+  change (get_pr (L <| r_log := lg1 |>) l) with (get_pr L l) in Hown1. rewrite C3 in Hgl.
+  rewrite Hgl in Hown1. cbn in Hown1.
+  destruct (get_pr L1 l) as [ps1|] eqn:Hg1; [|discriminate]. cbn in Hown1.
+  assert (Hps1 : matched ps1 = ll_last LL) by congruence.
+  destruct (on_persist_own (L1 <| r_log := lg2 |>) (ll_last LL + 1) T lg3 L2 ps1 Hop Hmp)
+    as ((pown & Hgo & Hmo) & Hcom2).
+  { change (r_state (L1 <| r_log := lg2 |>)) with (r_state L1). rewrite F1. exact C1. }
+  { change (r_id (L1 <| r_log := lg2 |>)) with (r_id L1). rewrite F5.
+    change (r_id (L <| r_log := lg1 |>)) with (r_id L). rewrite C3. exact Hg1. }
+  { lia. }
+  change (r_id (L1 <| r_log := lg2 |>)) with (r_id L1) in Hgo. rewrite F5 in Hgo.
+  change (r_id (L <| r_log := lg1 |>)) with (r_id L) in Hgo. rewrite C3 in Hgo.
+  assert (Hcom2' : committed (r_log L2) <= ll_last LL + 1).
+  { pose proof (abs_last rwl _ HI3) as Hl3. rewrite Habs3, Hlast1 in Hl3. rewrite Hl3 in Hcom2.
+    change (committed lg3) with (committed lg2) in Hcom2. lia. }
+  assert (HCI2 : CommitInv (ll_last LL1) L2).
+  { rewrite Hlast1. split; [exact Hcom2'|]. intros Hav. exfalso.
+    destruct Hvf as (Fv & HFv & Hv). rewrite <- Hconf2 in Hv.
+    destruct (Hav _ Hv) as (p & Hp & Hpm).
+    destruct (Hfol Fv HFv) as (_ & (pr2 & Hg2 & Hm2) & _). rewrite Hg2 in Hp. inversion Hp; subst p. lia. }
+  destruct (star_commit LL1 T l rw rwl lg3 lof HLL1 HT HI3 Habs3 HlastT Hb L2 Fs N1 K L' Fs' pown
+              HS2 Hne HH
+              ltac:(intros F HF; rewrite Hlast1; apply HN; exact HF)
+              ltac:(rewrite Hconf2; exact Hinc)
+              ltac:(intros v Hv; rewrite Hconf2 in Hv; apply Hvot; exact Hv)
+              Hgo ltac:(rewrite Hlast1; exact Hmo) HCI2 HK Hrun) as [R1 R2].
+  rewrite Hlast1 in R1, R2. split; [exact R1|exact R2].
+Qed.
+
+End StarPropose.
